@@ -3,13 +3,16 @@ package checks
 import (
 	"encoding/json"
 	"fmt"
+	"math/big"
 	"reflect"
 	"regexp"
 	"sort"
 	"strconv"
 	"strings"
 
+	compact_time "github.com/kstenerud/go-compact-time"
 	"github.com/kstenerud/go-concise-encoding/cbe"
+	"github.com/kstenerud/go-concise-encoding/ce/events"
 	"github.com/kstenerud/go-concise-encoding/configuration"
 	"github.com/kstenerud/go-concise-encoding/cte"
 	"github.com/kstenerud/go-concise-encoding/iterator"
@@ -355,6 +358,14 @@ func c21Marshal(c *fx.Ctx, fields []c21Field, style configuration.FieldNameStyle
 
 // ---- unmarshal side ----
 
+// c21UnknownKinds: the values an unmatched key may carry; the full set for the exact spellings, four kinds otherwise.
+func c21UnknownKinds(all bool) []string {
+	if all {
+		return []string{"scalar", "string", "list", "map", "media", "edge", "node", "typed-array", "chunked-string", "time", "uid", "null", "bigint", "rid", "float"}
+	}
+	return []string{"scalar", "string", "list", "map"}
+}
+
 func c21Norm(s string) string {
 	return strings.ReplaceAll(strings.ReplaceAll(strings.ToLower(s), "_", ""), " ", "")
 }
@@ -391,6 +402,28 @@ func c21Unmarshal(c *fx.Ctx, fs []c21UField, keys []string, unknownAt int, unkno
 				doc = append(doc, ev.EMap(), ev.EStr("a"), ev.EMap(), ev.EEnd(), ev.EEnd())
 			case "string":
 				doc = append(doc, ev.EStr("a string of more than fifteen bytes"))
+			case "media":
+				doc = append(doc, ev.EMedia("image/png", []byte{0x89, 0x50, 0x4e, 0x47}))
+			case "edge":
+				doc = append(doc, ev.EEdge(), ev.EStr("a"), ev.EStr("b"), ev.EStr("c"), ev.EEnd())
+			case "node":
+				doc = append(doc, ev.ENode(), ev.EPInt(1), ev.EList(), ev.EEnd(), ev.EPInt(2), ev.EEnd())
+			case "typed-array":
+				doc = append(doc, ev.EArr(events.ArrayTypeUint16, 2, []byte{1, 0, 2, 0}))
+			case "chunked-string":
+				doc = append(doc, ev.EABegin(events.ArrayTypeString), ev.EChunk(2, true), ev.EData([]byte("ab")), ev.EChunk(1, false), ev.EData([]byte("c")))
+			case "time":
+				doc = append(doc, ev.ETime(compact_time.NewTimestamp(2020, 1, 15, 10, 0, 1, 5, compact_time.TZAtAreaLocation("Europe/Berlin"))))
+			case "uid":
+				doc = append(doc, ev.EUID([]byte{1, 2, 3, 4, 5, 6, 7, 8, 9, 10, 11, 12, 13, 14, 15, 16}))
+			case "null":
+				doc = append(doc, ev.ENull())
+			case "bigint":
+				doc = append(doc, ev.EBigInt(new(big.Int).Lsh(big.NewInt(1), 80)))
+			case "rid":
+				doc = append(doc, ev.ESArr(events.ArrayTypeResourceID, "http://x.y/z"))
+			case "float":
+				doc = append(doc, ev.EFloat(1.5))
 			}
 		}
 		doc = append(doc, ev.EStr(k), ev.EPInt(uint64(100+i)))
@@ -499,7 +532,7 @@ func c21Unmarshal(c *fx.Ctx, fs []c21UField, keys []string, unknownAt int, unkno
 }
 
 func c21Run(c *fx.Ctx) {
-	names := []string{"A", "Ab", "AbCd", "ABc", "A1b", "URLValue", "Sha256Sum", "Int8Value"}
+	names := []string{"A", "Ab", "AbCd", "ABc", "A1b", "URLValue", "Sha256Sum", "Int8Value", "Ärger", "Ωmega"}
 	tags := []string{"", "omit", "omit_empty", "omit_zero", "omit_never", "name=x", "name=MixedCase", "order=1", "order=2", "order=-1", "omit_empty,name=y,order=3", " omit_zero , name = spaced "}
 	vals := []string{"int0", "int5", "str0", "strS", "ptrNil", "ptr7", "sliceNil", "sliceEmpty", "slice1", "mapNil", "map1", "arr0"}
 	styles := []configuration.FieldNameStyle{configuration.FieldNameCamelCase, configuration.FieldNameSnakeCase}
@@ -604,6 +637,7 @@ func c21Run(c *fx.Ctx) {
 		{{"Value", ""}, {"Other", "name=value"}},
 		{{"Sha256Sum", ""}, {"Plain", "name=MixedCase"}},
 		{{"A", "name=the_name"}, {"TheName2", ""}},
+		{{"Ärger", ""}, {"Ωmega", ""}},
 	}
 	for _, fs := range ufs {
 		// key spellings per field: exact, snake, lower, upper, with underscores
@@ -622,7 +656,7 @@ func c21Run(c *fx.Ctx) {
 						c21Unmarshal(c, fs, []string{k0, k1}, -1, "", caseIn, f)
 						c21Unmarshal(c, fs, []string{k1, k0}, -1, "", caseIn, f)
 						for pos := 0; pos <= 1; pos++ {
-							for _, uk := range []string{"scalar", "string", "list", "map"} {
+							for _, uk := range c21UnknownKinds(k0 == spell[0][0] && k1 == spell[1][0]) {
 								c21Unmarshal(c, fs, []string{k0, k1}, pos, uk, caseIn, f)
 							}
 						}
@@ -711,7 +745,7 @@ func init() {
 	register(&fx.Check{
 		ID:    "C21",
 		Level: "exploration",
-		Rule: "marshal: every single field over 8 field names × 12 tag spellings × 12 values; every pair of tags on two fields × 3 value pairs (thorough: every triple of tags on three fields × 2 value triples); an embedded struct (plain / ce:omit / omit_never, zero and non-zero) between two tagged fields; every assignment of 5 order tags to 4 fields — each under both field-name styles and all four default omit behaviours; oracle: a reference model written from the property (kept fields once each, stable order by order tag then declaration, tagged or styled name) compared with the recorded events; two values of one struct type with different omitted fields (5×5 value assignments × 5 tag sets) as elements of one slice and as two documents from one iterator. " +
+		Rule: "marshal: every single field over 10 field names (two starting with a non-ASCII upper-case letter) × 12 tag spellings × 12 values; every pair of tags on two fields × 3 value pairs (thorough: every triple of tags on three fields × 2 value triples); an embedded struct (plain / ce:omit / omit_never, zero and non-zero) between two tagged fields; every assignment of 5 order tags to 4 fields — each under both field-name styles and all four default omit behaviours; oracle: a reference model written from the property (kept fields once each, stable order by order tag then declaration, tagged or styled name) compared with the recorded events; two values of one struct type with different omitted fields (5×5 value assignments × 5 tag sets) as elements of one slice and as two documents from one iterator. " +
 			"unmarshal: 5 two-field structs (incl. two fields whose names differ only by case, one via a name tag) × 10 spellings of each key (incl. runs of underscores) × both key orders × an unknown key (scalar, long string, nested list, nested map) at each position × case-insensitive on/off × CBE/CTE; oracle: a key that names exactly one field sets it, unknown keys are skipped, other fields keep their zero value; distinct_nontrivial = distinct cases that agreed with the model",
 		Assumptions: []string{"whether a name= tag is additionally snake-cased is a don't-care (both accepted)", "in case-sensitive mode keys that differ from a field name only in case/underscores are not judged", "keys that match two fields after normalisation are not judged"},
 		TrustedBase: []string{"reference naming/omission/order model in c21.go", "harness value tree"},
